@@ -35,9 +35,27 @@ import (
 	"go.universe.tf/metallb/internal/k8s/controllers"
 )
 
-type vrClient struct{}
+// the API server as far as the controller is concerned: remembers the status last written per service
+type vrClient struct {
+	mu     *sync.Mutex
+	status map[string]v1.ServiceStatus
+}
 
-func (vrClient) UpdateStatus(*v1.Service) error                      { return nil }
+func vrNewClient() vrClient { return vrClient{mu: &sync.Mutex{}, status: map[string]v1.ServiceStatus{}} }
+
+func (c vrClient) UpdateStatus(svc *v1.Service) error {
+	c.mu.Lock()
+	c.status[svc.Namespace+"/"+svc.Name] = *svc.Status.DeepCopy()
+	c.mu.Unlock()
+	return nil
+}
+
+func (c vrClient) last(name string) (v1.ServiceStatus, bool) {
+	c.mu.Lock()
+	defer c.mu.Unlock()
+	st, ok := c.status[name]
+	return st, ok
+}
 func (vrClient) Infof(*v1.Service, string, string, ...interface{})  {}
 func (vrClient) Errorf(*v1.Service, string, string, ...interface{}) {}
 
@@ -89,13 +107,22 @@ func vrService(i int, r *rand.Rand) *v1.Service {
 			Ports:      []v1.ServicePort{{Protocol: v1.ProtocolTCP, Port: int32(80 + i%2), TargetPort: intstr.FromInt(8080)}},
 		},
 	}
-	switch r.Intn(6) {
+	if r.Intn(3) == 0 { // ports change between deliveries
+		svc.Spec.Ports[0].Port = []int32{80, 81, 443}[r.Intn(3)]
+	}
+	switch r.Intn(8) {
+	case 6, 7: // PreferDualStack on the dual-stack pool: a second family is added to an existing allocation
+		pol := v1.IPFamilyPolicyPreferDualStack
+		svc.Spec.IPFamilyPolicy = &pol
+		svc.Spec.ClusterIPs = []string{"1.2.3.4", "fc00:1::4"}
+		svc.Spec.IPFamilies = []v1.IPFamily{v1.IPv4Protocol, v1.IPv6Protocol}
+		svc.Annotations["metallb.io/address-pool"] = "pool2"
 	case 0:
 		svc.Annotations["metallb.io/address-pool"] = vrPoolNames[r.Intn(len(vrPoolNames))]
 	case 1:
 		svc.Annotations["metallb.io/loadBalancerIPs"] = []string{"10.20.30.1", "10.20.40.1", "10.20.50.9"}[r.Intn(3)]
 	case 2:
-		svc.Annotations["metallb.io/allow-shared-ip"] = "k"
+		svc.Annotations["metallb.io/allow-shared-ip"] = []string{"k", "k", "k2"}[r.Intn(3)] // the sharing key changes now and then
 		svc.Annotations["metallb.io/loadBalancerIPs"] = "10.20.30.2"
 	}
 	return svc
@@ -130,6 +157,7 @@ func vrEvents(seed int64, n int) []vrEvent {
 }
 
 type vrSystem struct {
+	eager  func(string) // when set: the pool status event is handed over synchronously (TestVerifNotifyController)
 	c      *controller
 	lst    *k8s.Listener
 	poolID map[*config.Pools]int
@@ -158,8 +186,12 @@ func vrNewSystem(evs []vrEvent) *vrSystem {
 		}
 	}
 	c := &controller{
-		client: vrClient{},
+		client: vrNewClient(),
 		ips: allocator.New(func(name string) {
+			if s.eager != nil {
+				s.eager(name)
+				return
+			}
 			select {
 			case s.evts <- name:
 			default:
@@ -320,4 +352,100 @@ func vrRound(out *vOut, seed int64, round int, raw map[string]bool) {
 			map[string]any{"seed": seed, "workers": workers, "raw_handlers": os.Getenv("VERIF_RAW_HANDLERS"), "schedule": sched})
 	}
 	out.Case(round, "controller-round", "tt", map[string]any{"seed": seed, "workers": workers, "events": len(evs), "state": got})
+}
+
+// ---------------------------------------------------------------- notifications vs. state (eager pool status reconciler)
+
+// TestVerifNotifyController: the allocator tells the PoolStatusReconciler that a pool's counters
+// changed through countersChangedCallback (controller/main.go: a send on the unbuffered
+// poolStatusChan).  The consumer here is EAGER: it runs at once, before the handler goes on,
+// queries the real fetcher CountersForPool (countersMutex only) and remembers the LAST value it
+// published.  Events: first allocations, resync of an allocated service (re-assign in the same
+// pool), changed ports / sharing key, a second family for PreferDualStack, explicit addresses,
+// moves between pools, withdrawals, pool changes — through the real Listener wrappers.  After every
+// handler the last published counters of every pool must be the counters the handlers left.
+func TestVerifNotifyController(t *testing.T) {
+	out := vOpen()
+	defer out.Close()
+	r := vRand()
+	rounds := vN(3)
+	for round := 0; round < rounds; round++ {
+		seed := r.Int63()
+		nev := 300
+		if vThorough() {
+			nev = 2500
+		}
+		evs := vrEvents(seed, nev)
+		sys := vrNewSystem(evs)
+		type pevt struct {
+			pool string
+			done chan struct{}
+		}
+		ch := make(chan pevt) // unbuffered, as poolStatusChan
+		stop := make(chan struct{})
+		var mu sync.Mutex
+		pub := map[string]allocator.PoolCounters{}
+		go func() {
+			for {
+				select {
+				case <-stop:
+					return
+				case e := <-ch:
+					c := sys.c.ips.CountersForPool(e.pool)
+					mu.Lock()
+					pub[e.pool] = c
+					mu.Unlock()
+					close(e.done)
+				}
+			}
+		}()
+		sys.eager = func(pool string) {
+			e := pevt{pool, make(chan struct{})}
+			ch <- e
+			<-e.done // the reconciler wins the race with the rest of the handler
+		}
+		var sched []string
+		bad := false
+		for _, e := range evs {
+			before := map[string]string{}
+			for _, n := range vrSvcNames {
+				before[n] = sys.c.ips.Pool(n)
+			}
+			// a resync: the service comes back with the status the controller wrote last (2 out of 3 times)
+			resync := false
+			if e.Kind == "service" && e.svc != nil && r.Intn(3) > 0 {
+				if st, ok := sys.c.client.(vrClient).last(e.name); ok && len(st.LoadBalancer.Ingress) > 0 {
+					cp := e.svc.DeepCopy()
+					cp.Status = *st.DeepCopy()
+					e.svc = cp
+					e.What += " (with the status written last)"
+					resync = true
+				}
+			}
+			sys.deliver(e, nil)
+			sched = append(sched, fmt.Sprintf("%d:%s", e.ID, e.What))
+			out.Stat("notify_controller_events", 1)
+			if resync && before[e.name] != "" && sys.c.ips.Pool(e.name) == before[e.name] {
+				out.Stat("notify_controller_reassign_same_pool", 1)
+			}
+			for _, p := range vrPoolNames {
+				now := sys.c.ips.CountersForPool(p)
+				mu.Lock()
+				got := pub[p]
+				mu.Unlock()
+				if now != got && !bad {
+					bad = true
+					out.Fail("c20-status-stale-pool", fmt.Sprintf("after %q (no status event pending) the last published counters of %s are %+v but the allocator's counters are %+v: the counters-changed notification was sent before the final counters were in place, or not at all", e.What, p, got, now),
+						map[string]any{"seed": seed, "schedule": sched, "how": "./check C20 (TestVerifNotifyController: eager consumer on the counters-changed callback)"})
+				} else if now.AssignedIPv4+now.AssignedIPv6 > 0 {
+					out.Stat("notify_controller_assigned_checks", 1)
+				}
+			}
+			if bad {
+				break
+			}
+		}
+		close(stop)
+		out.Case(round, "notify-controller", "tt", map[string]any{"seed": seed, "events": len(evs)})
+	}
 }
